@@ -225,4 +225,137 @@ theorem Reenc.dec_eq {us us' : List PU} (h : Reenc us us') : us'.map PU.dec = us
   | keep u _ ih => simp [ih]
   | enc c a b _ _ _ ho _ ih => simp [PU.dec, ho, ih]
 
+/-! ### The spelling `extractURL` keeps: the received path with the octets a path may not contain encoded -/
+
+theorem isHex_allowed (a : Char) (h : isHex a = true) : pathOctetAllowed a = true := by
+  unfold isHex at h
+  unfold pathOctetAllowed
+  have : a.isAlphanum = true := by
+    simp only [Char.isAlphanum, Char.isAlpha, Char.isUpper, Char.isLower, Char.isDigit, Bool.or_eq_true,
+      Bool.and_eq_true, decide_eq_true_eq, ge_iff_le, Char.le_def, UInt32.le_iff_toNat_le] at h ⊢
+    have e1 : '0'.val.toNat = 48 := rfl
+    have e2 : '9'.val.toNat = 57 := rfl
+    have e3 : 'a'.val.toNat = 97 := rfl
+    have e4 : 'f'.val.toNat = 102 := rfl
+    have e5 : 'A'.val.toNat = 65 := rfl
+    have e6 : 'F'.val.toNat = 70 := rfl
+    have e7 : 'Z'.val.toNat = 90 := rfl
+    have e8 : 'z'.val.toNat = 122 := rfl
+    rw [e1, e2, e3, e4, e5, e6] at h
+    rw [e1, e2, e3, e5, e7, e8]
+    omega
+  simp [this]
+
+/-- the unit-level form of `receivedPathL`: a literal octet that may not stand in a path becomes its escape -/
+def receivedUnit : PU → PU
+  | .lit c => if pathOctetAllowed c then .lit c
+              else .esc (hexDigitUpper (c.toNat / 16 % 16)) (hexDigitUpper (c.toNat % 16))
+  | .esc a b => .esc a b
+
+theorem isHex_hexDigitUpper : ∀ n : Fin 16, isHex (hexDigitUpper n.val) = true := by decide
+theorem unhex_hexDigitUpper : ∀ n : Fin 16, unhex (hexDigitUpper n.val) = n.val := by decide
+theorem hexDigitUpper_allowed : ∀ n : Fin 16, pathOctetAllowed (hexDigitUpper n.val) = true := by decide
+theorem percent_allowed : pathOctetAllowed '%' = true := by decide
+
+theorem receivedPathL_render (us : List PU) (hwf : ∀ u ∈ us, u.wf) :
+    receivedPathL (renderU us) = renderU (us.map receivedUnit) := by
+  induction us with
+  | nil => rfl
+  | cons u rest ih =>
+    have ih' := ih (fun x hx => hwf x (by simp [hx]))
+    have hw := hwf u (by simp)
+    cases u with
+    | lit c =>
+      by_cases hc : pathOctetAllowed c
+      · simp only [renderU, List.flatMap_cons, PU.render, List.cons_append, List.nil_append, List.map_cons,
+          receivedUnit, hc, if_true, receivedPathL] at ih' ⊢
+        rw [ih']
+      · simp only [renderU, List.flatMap_cons, PU.render, List.cons_append, List.nil_append, List.map_cons,
+          receivedUnit, hc, receivedPathL] at ih' ⊢
+        simp [ih']
+    | esc a b =>
+      have ha := isHex_allowed a hw.1
+      have hb := isHex_allowed b hw.2
+      simp only [renderU, List.flatMap_cons, PU.render, List.cons_append, List.nil_append, List.map_cons,
+        receivedUnit, receivedPathL, percent_allowed, ha, hb, if_true] at ih' ⊢
+      rw [ih']
+
+theorem receivedUnit_wf (us : List PU) (hwf : ∀ u ∈ us, u.wf) : ∀ u ∈ us.map receivedUnit, u.wf := by
+  intro u hu
+  obtain ⟨x, hx, rfl⟩ := List.mem_map.mp hu
+  have := hwf x hx
+  cases x with
+  | lit c =>
+    by_cases hc : pathOctetAllowed c
+    · simp only [receivedUnit, hc, if_true]; exact this
+    · simp only [receivedUnit, hc]
+      exact ⟨isHex_hexDigitUpper ⟨c.toNat / 16 % 16, Nat.mod_lt _ (by decide)⟩,
+             isHex_hexDigitUpper ⟨c.toNat % 16, Nat.mod_lt _ (by decide)⟩⟩
+  | esc a b => exact this
+
+/-- octets of a request line -/
+def PU.byte : PU → Prop
+  | .lit c => c.toNat < 256
+  | .esc _ _ => True
+
+theorem receivedUnit_dec (u : PU) (hb : u.byte) : (receivedUnit u).dec = u.dec := by
+  cases u with
+  | esc a b => rfl
+  | lit c =>
+    by_cases hc : pathOctetAllowed c
+    · simp [receivedUnit, hc]
+    · have hcf : pathOctetAllowed c = false := by simpa using hc
+      simp only [receivedUnit, hcf, Bool.false_eq_true, if_false, PU.dec, octet]
+      have h1 := unhex_hexDigitUpper ⟨c.toNat / 16 % 16, Nat.mod_lt _ (by decide)⟩
+      have h2 := unhex_hexDigitUpper ⟨c.toNat % 16, Nat.mod_lt _ (by decide)⟩
+      simp only at h1 h2
+      rw [h1, h2]
+      have hb' : c.toNat < 256 := hb
+      have : 16 * (c.toNat / 16 % 16) + c.toNat % 16 = c.toNat := by omega
+      rw [this]
+      exact Char.ofNat_toNat c
+
+theorem receivedUnit_isSlash (u : PU) (hb : u.byte) : (receivedUnit u).isSlash = u.isSlash := by
+  cases u with
+  | esc a b => rfl
+  | lit c =>
+    by_cases hc : pathOctetAllowed c
+    · simp [receivedUnit, hc]
+    · have hcf : pathOctetAllowed c = false := by simpa using hc
+      simp only [receivedUnit, hcf, Bool.false_eq_true, if_false, PU.isSlash]
+      -- an escape written by `receivedPathL` is `%2F` only for the octet `/`, which is allowed
+      cases hs : (decide (hexDigitUpper (c.toNat / 16 % 16) = '2') &&
+          (decide (hexDigitUpper (c.toNat % 16) = 'F') || decide (hexDigitUpper (c.toNat % 16) = 'f'))) with
+      | false => rfl
+      | true =>
+        exfalso
+        simp only [Bool.and_eq_true, Bool.or_eq_true, decide_eq_true_eq] at hs
+        have k1 : ∀ n : Fin 16, hexDigitUpper n.val = '2' → n.val = 2 := by decide
+        have k2 : ∀ n : Fin 16, (hexDigitUpper n.val = 'F' ∨ hexDigitUpper n.val = 'f') → n.val = 15 := by decide
+        have a1 := k1 ⟨c.toNat / 16 % 16, Nat.mod_lt _ (by decide)⟩ hs.1
+        have a2 := k2 ⟨c.toNat % 16, Nat.mod_lt _ (by decide)⟩ hs.2
+        simp only at a1 a2
+        have hb' : c.toNat < 256 := hb
+        have h47 : c.toNat = 47 := by omega
+        have : c = '/' := by rw [← Char.ofNat_toNat c, h47]
+        rw [this] at hcf
+        revert hcf; decide
+
+
+theorem receivedU_slash (us : List PU) (hb : ∀ u ∈ us, u.byte) :
+    (us.map receivedUnit).any PU.isSlash = us.any PU.isSlash := by
+  induction us with
+  | nil => rfl
+  | cons u rest ih =>
+    simp only [List.map_cons, List.any_cons]
+    rw [receivedUnit_isSlash u (hb u (by simp)), ih (fun x hx => hb x (by simp [hx]))]
+
+theorem receivedU_dec (us : List PU) (hb : ∀ u ∈ us, u.byte) :
+    (us.map receivedUnit).map PU.dec = us.map PU.dec := by
+  rw [List.map_map]
+  apply List.map_congr_left
+  intro u hu
+  exact receivedUnit_dec u (hb u hu)
+
+
 end Heimdall
